@@ -16,6 +16,9 @@ import (
 
 var treeSets sync.Map
 
+// treeSetsExtra: further named tree sets registered by individual checks.
+var treeSetsExtra = map[string]func() []*qast.Node{}
+
 // treeSet materialises a named tree set once per process.
 func treeSet(name string) []*qast.Node {
 	if v, ok := treeSets.Load(name); ok {
@@ -36,7 +39,11 @@ func treeSet(name string) []*qast.Node {
 	case "two2":
 		ts = qast.AllTrees(qast.LeavesSmall(2), 2)
 	default:
-		panic("unknown tree set " + name)
+		if f, ok := treeSetsExtra[name]; ok {
+			ts = f()
+		} else {
+			panic("unknown tree set " + name)
+		}
 	}
 	treeSets.Store(name, ts)
 	return ts
